@@ -51,13 +51,14 @@ Proof.
   assert (Hother : match o with OpDone _ _ _ | OpConnState _ Ready => False | _ => True end ->
                    c07_event (raw_in_force raw ms o) ms (observe s) (mkEvent o outs rt ub (Some (observe s'))) (observe s') = true).
   { intros Ho. rewrite c07_event_other by exact Ho. rewrite H1. cbn [andb].
-    eapply full_step_other_no_rm; eauto. destruct o as [| |sc st| | | | | | |]; auto. destruct st; auto. }
+    apply (full_step_other_no_rm raw s o order s' outs rt ub HI Hrt E).
+    destruct o as [| |sc st| | | | | | |]; try exact I. destruct st; try exact I. destruct Ho. }
   destruct o as [addrs a| |sc st|pi m hc rk dl cc|j oc rk|dt|j|f|g|k]; try (apply Hother; exact I).
   - destruct st; try (apply Hother; exact I).
     rewrite c07_event_swap, H1. cbn [andb].
     destruct (aget (o_refr (observe s)) sc) as [i|] eqn:Er.
     + eapply c07_swap_holds; eauto.
-    + eapply full_step_other_no_rm; eauto. cbn beta iota.
+    + apply (full_step_other_no_rm raw s _ order s' outs rt ub HI Hrt E). cbn beta iota.
       unfold observe in Er; cbn [o_refr] in Er. rewrite aget_asort in Er by apply (nd_refr (proj1 HI)). exact Er.
   - rewrite c07_event_done, H1. cbn [andb]. eapply c07_done_holds; eauto.
 Qed.
@@ -72,7 +73,7 @@ Proof.
   intros (HI & HQ & HU) HS ([Hl _] & [Hde _] & Hq) E. cbv zeta.
   unfold event_guard in Hq. rewrite E in Hl, Hq.
   destruct (Sim_step raw s ms o order s' outs rt ub HI HS Hl E) as [HI' [HQ' HS']].
-  split; [split; [exact HI'|split; [exact HQ'|eapply full_step_InvU; eauto]]|].
+  split; [split; [exact HI'|split; [exact HQ'|exact (full_step_InvU _ _ _ _ _ _ _ _ HI HU E)]]|].
   split; [exact HS'|]. eapply c07_check; eauto.
 Qed.
 
@@ -256,12 +257,13 @@ Proof.
   destruct (sl_refreshing r); [reflexivity|]. destruct (cannot_create s); reflexivity.
 Qed.
 
-Lemma rviews_conn s s' i r :
-  get_slot s i = Some r -> nth_error (rviews s') i = nth_error (rviews s) i ->
+Lemma conn_nth s s' i r :
+  get_slot s i = Some r ->
+  (exists v, nth_error (rviews s') i = Some v /\ conn_of v = sl_conn r) ->
   exists r', get_slot s' i = Some r' /\ sl_conn r' = sl_conn r.
 Proof.
-  intros Hr H. rewrite (map_nth_error rview _ _ Hr) in H. apply nth_error_map_Some in H.
-  destruct H as [r' [H1 H2]]. exists r'. split; [exact H1|]. unfold rview in H2. congruence.
+  intros Hr [v [H1 H2]]. apply nth_error_map_Some in H1. destruct H1 as [r' [H1 <-]].
+  exists r'. split; [exact H1|exact H2].
 Qed.
 
 Theorem old_serves_until_swap raw s o order s' outs rt ub i r :
@@ -274,19 +276,112 @@ Proof.
   destruct (resolve_blocked s1) as [s2 ub2] eqn:Er. intros E; inv E. intros Hr Hns.
   destruct (step_Inv _ _ _ _ _ _ _ HI Es) as [HI1 _].
   destruct (resolve_blocked_spec _ _ _ HI1 Er) as [_ [Hm _]].
-  apply rviews_conn; [exact Hr|]. rewrite (rviews_mask_sp _ _ Hm). clear Hm Er.
+  apply (conn_nth s s' i r Hr). rewrite (rviews_mask_sp _ _ Hm). clear Hm Er.
+  pose proof (map_nth_error rview _ _ Hr) as Hv.
   pose proof (step_grow7 _ _ _ _ _ _ _ HI Es) as Hg.
-  assert (K : grow7 s s1 -> nth_error (rviews s1) i = nth_error (rviews s) i).
-  { intros [_ [l [El _]]]. rewrite El. apply nth_error_app1. rewrite map_length. eapply nth_error_Some_lt, Hr. }
+  assert (K : grow7 s s1 -> exists v, nth_error (rviews s1) i = Some v /\ conn_of v = sl_conn r).
+  { intros [_ [l [El _]]]. exists (rview r). split; [|reflexivity]. rewrite El, nth_error_app1; [exact Hv|].
+    eapply nth_error_Some_lt, Hv. }
   destruct o as [addrs a| |sc st|pi m hc rk dl cc|j oc rk|dt|j|f|g|k]; try (apply K, Hg).
   - cbn [step] in Es. destruct (UpdateSubConnState s sc st order) as [s1' o1] eqn:E1. inv Es.
-    destruct (UpdateSubConnState_slots _ _ _ _ _ _ HI E1) as [(H1&_)|(i0&ref&->&Hr0&_&H1&_)]; rewrite H1; [reflexivity|].
-    rewrite rviews_swapped. apply nth_error_upd_nth_neq. intros ->. exact (Hns sc eq_refl Hr0).
+    exists (rview r). split; [|reflexivity].
+    destruct (UpdateSubConnState_slots _ _ _ _ _ _ HI E1) as [(H1&_)|(i0&ref&->&Hr0&_&H1&_)]; rewrite H1; [exact Hv|].
+    rewrite rviews_swapped, nth_error_upd_nth_neq; [exact Hv|]. intros ->. exact (Hns sc eq_refl Hr0).
   - cbn [step] in Es. destruct (ret_badop_dec rt) as [->|Hrt].
-    + apply Done_badop in Es. destruct Es as [-> _]. reflexivity.
+    + apply Done_badop in Es. destruct Es as [-> _]. exists (rview r). split; [exact Hv|reflexivity].
     + destruct (Done_spec _ _ _ _ _ _ _ HI Es Hrt) as (p & r0 & _ & _ & Hr0 & H1 & _). cbv zeta in H1.
-      rewrite H1, nth_error_upd_nth. destruct (Nat.eqb_spec (pk_slot p) i) as [<-|]; [|reflexivity].
-      rewrite (map_nth_error rview _ _ Hr0). cbn [option_map]. f_equal.
+      rewrite H1, nth_error_upd_nth. destruct (Nat.eqb_spec (pk_slot p) i) as [<-|]; [|exists (rview r); auto].
+      rewrite Hv. cbn [option_map]. eexists. split; [reflexivity|].
       assert (r0 = r) by (unfold get_slot in *; congruence). subst r0.
-      unfold rview. rewrite du_result_conn.
-Abort.
+      change (conn_of (rview ?x)) with (sl_conn x). rewrite du_result_conn. reflexivity.
+Qed.
+
+(* a call that is placed is handed the connection its channel has at that moment *)
+Theorem placed_call_gets_channel_conn s pi pk method hasctx reqkeys deadline cancelled s1 o n :
+  Inv s -> nth_error (b_published s) pi = Some pk ->
+  Pick s pi pk method hasctx reqkeys deadline cancelled = (s1, o, RPicked n) ->
+  exists p i r, b_picks s1 = b_picks s ++ [p] /\ pk_slot p = i /\ pk_status p = PPlaced /\
+                get_slot s1 i = Some r /\ sl_conn r = n.
+Proof.
+  intros HI Hpk E. destruct (Pick_appends _ _ _ _ _ _ _ _ _ _ _ HI Hpk E) as [Happ _].
+  destruct Happ as [key [i [_ [Hi Hp]]]]. apply nth_error_map_Some in Hi. destruct Hi as [r [Hr Hc]].
+  eexists _, i, r. split; [exact Hp|]. repeat split; auto.
+Qed.
+
+(* --- the swap: the replacement takes over the channel --- *)
+Theorem swap_takes_over s sc i ref order s1 o1 :
+  Inv s -> aget (b_refr s) sc = Some i -> get_slot s i = Some ref ->
+  UpdateSubConnState s sc Ready order = (s1, o1) ->
+  removes o1 = [sl_conn ref] /\                                     (* exactly one removal: the old connection *)
+  get_slot s1 i = Some (mkSlot sc (sl_aff ref) (sl_streams ref) (b_now s) 0 false ((sl_rcnt ref + 1) mod W32)) /\
+  aget (b_refr s1) sc = None /\
+  b_aff s1 = rekey (b_aff s) (sl_conn ref) sc /\
+  aget (b_screfs s1) sc = Some i /\ aget (b_screfs s1) (sl_conn ref) = None /\
+  aget (b_scstates s1) sc = Some Ready /\
+  (forall j, j <> i -> get_slot s1 j = get_slot s j).
+Proof.
+  intros HI Hr Hs E. destruct (swap_step _ _ _ _ _ _ _ HI Hr Hs E) as (R1 & R2 & R3 & R4 & R5 & R6).
+  pose proof (swap_ne s sc i ref HI Hr Hs) as Hne.
+  split; [exact R1|]. split.
+  { unfold get_slot. rewrite R2, nth_error_upd_nth_eq. unfold get_slot in Hs. rewrite Hs. reflexivity. }
+  split; [rewrite R3; apply aget_adel_eq|]. split; [exact R4|].
+  split; [rewrite R5; apply aget_aset_eq|].
+  split; [rewrite R5, aget_aset_neq by exact Hne; apply aget_adel_eq|].
+  split; [exact R6|]. intros j Hj. unfold get_slot. rewrite R2. apply nth_error_upd_nth_neq. congruence.
+Qed.
+
+(* ================================================================ the two guards are forced *)
+(* (a) a call waiting on the channel returns in the swap event: the monitor sees the
+       stream count change across the swap and rejects a legal history *)
+Example swap_unblock_counterexample :
+  let raw := Some (mkConfig 1 4 100 false 10 1 true [(1%N, mkMcfg BIND true)]) in
+  let ops := [(OpResolver 1 CfgVal, []); (OpConnState 0 Ready, []);
+              (OpPick 0 0 false [] (Some 5) false, []); (OpAdvance 20000001, []);
+              (OpDone 0 DDeadlineClient [], []);
+              (OpConnState 0 Connecting, []);
+              (OpPick 0 1 true [] None false, []);
+              (OpConnState 1 Ready, [])] in
+  map ev_ret (run raw init_bal ops) = [RNone; RNone; RPicked 0; RNone; RNone; RNone; RBlocked; RNone] /\
+  map ev_ub (run raw init_bal ops) = [[]; []; []; []; []; []; []; [(1%nat, 1%N)]] /\
+  monitor P07 raw (observe init_bal) (run raw init_bal ops) = false.
+Proof. vm_compute. repeat split; reflexivity. Qed.
+
+(* (b) deCalls = 2^32 - 1: the model's counter wraps to 0 and no refresh is attempted,
+       the monitor's rule (ucalls <= deCalls + 1) demands one.  One legal Done from a
+       state that satisfies the invariant. *)
+Definition wrap_state : bal :=
+  mkBal (Some (mkConfig 1 4 100 false 10 1 false [])) 1 1 0 0 Ready [] [] [(0%N, Ready)] [(0%N, 0%nat)]
+        [mkSlot 0 0 1 0 4294967295 false 0]
+        4294967295 [] true (PSnap [0%nat]) [PSnap [0%nat]]
+        [mkPick 0 5 (Some 6) false BOUND 0 false true PPlaced] 20000001 1 false false [].
+
+Definition wrap_ms : mstate :=
+  mkMstate [PSnap [0%nat]] (Some (Ready, PSnap [0%nat]))
+           [mkMpick 0 BOUND 0 false true (Some 6) false 5 PPlaced] [] [(0%N, 1%N)] [(0%N, true)] false
+           (Some (Some (mkConfig 1 4 100 false 10 1 false []))) 0.
+
+Example de_wrap_counterexample :
+  let raw := Some (mkConfig 1 4 100 false 10 1 false []) in
+  mon_from P07 raw wrap_ms (observe wrap_state) (run raw wrap_state [(OpDone 0 DDeadlineClient [], [])]) = false /\
+  map ev_ret (run raw wrap_state [(OpDone 0 DDeadlineClient [], [])]) = [RNone] /\
+  map ev_out (run raw wrap_state [(OpDone 0 DDeadlineClient [], [])]) = [[]].
+Proof. vm_compute. repeat split; reflexivity. Qed.
+
+(* wrap_state is a reachable state in which only deCalls was set to its maximum *)
+Example wrap_state_reachable_up_to_de :
+  let raw := Some (mkConfig 1 4 100 false 10 1 false []) in
+  let prefix := [(OpResolver 1 CfgVal, []); (OpConnState 0 Ready, []); (OpAdvance 5, []);
+                 (OpPick 0 0 false [] (Some 6) false, []); (OpAdvance 19999996, [])] in
+  wrap_state = upd_slot (run_state raw init_bal prefix) 0 (fun r => sl_set_de r 4294967295).
+Proof. vm_compute. reflexivity. Qed.
+
+(* ================================================================ helpers for hand-made bad traces (Props_C07.v) *)
+Definition ev_with_out (outs : list out) (ev : event) : event :=
+  mkEvent (ev_op ev) outs (ev_ret ev) (ev_ub ev) (ev_obs ev).
+
+Definition obs_with_slots (f : list slot -> list slot) (o : obs) : obs :=
+  mkObs (o_cfgset o) (o_addrs o) (o_nready o) (o_nconn o) (o_ntf o) (o_state o) (o_aff o) (o_fb o) (o_st o)
+        (o_refs o) (f (o_slots o)) (o_rr o) (o_refr o) (o_undet o) (o_picker o) (o_npub o) (o_now o) (o_mufree o).
+
+Definition ev_with_slots (f : list slot -> list slot) (ev : event) : event :=
+  mkEvent (ev_op ev) (ev_out ev) (ev_ret ev) (ev_ub ev) (option_map (obs_with_slots f) (ev_obs ev)).
